@@ -52,6 +52,9 @@ def parseUOp (j : Json) : R (Op FB) := do
     match Op1.ofName? (← getStr a[1]!) with
     | some o => pure (.unary o (← a[2]!.getNat?))
     | none => throw "op1"
+  | "mcmean" => pure (.mcMeanStd (← a[1]!.getNat?) (← fbList a[2]!))
+  | "mcmode" => pure (.mcMode (← a[1]!.getNat?) (← getNatList a[2]!) (← fbList a[3]!) (← fb1 a[4]!))
+  | "mccustom" => pure (.mcCustom (← a[1]!.getNat?) (← fb1 a[2]!) (← fb1 a[3]!))
   | t => throw s!"unknown c14 op {t}"
 
 private def kindName : Uncert.Kind → String
@@ -67,8 +70,12 @@ def cmdC14 (j : Json) : R Json := do
   for op in ops do
     let (h', o) := Uncert.step h op
     h := h'
+    -- the hypothesis of the invariant theorem (`WF`): histogram edges in order
+    let wf : Bool := match op with
+      | .mcMode _ _ edges _ => Uncert.edgesOrdered edges
+      | _ => true
     outs := outs.push (obj [("out", Json.str (match o with | .ok => "ok" | .reject => "reject")),
-                            ("heap", putHeap h)])
+                            ("heap", putHeap h), ("wf", Json.bool wf)])
   pure (obj [("steps", Json.arr outs)])
 
 def uncertCmds : List (String × (Json → R Json)) := [("c14", cmdC14)]
